@@ -19,7 +19,8 @@ Module C := Constants.Hash.
 
 Theorem leaf_fold_hash_is_model :
   forall h mask, L.leaf_fold_hash_dom h mask -> L.leaf_fold_hash h mask = fold_hash h mask.
-Proof. intros. reflexivity. Qed.
+Proof. intros. reflexivity.
+Qed.
 Print Assumptions leaf_fold_hash_is_model.
 
 (* (i == hash->mask) ? 0U : (i + 1U).  The model has no wrap on i + 1: probe indices stay below n_entries <= 2^63 *)
@@ -45,27 +46,32 @@ Definition model_erase_count (c : Z) : Z := c - 1.
 
 Theorem leaf_hash_max_load_is_model :
   forall n, L.leaf_hash_max_load_dom n -> L.leaf_hash_max_load n = model_max_load n.
-Proof. intros n Hn. unfold L.leaf_hash_max_load_dom in Hn. unfold L.leaf_hash_max_load, model_max_load. lia. Qed.
+Proof. intros n Hn. unfold L.leaf_hash_max_load_dom in Hn. unfold L.leaf_hash_max_load, model_max_load. lia.
+Qed.
 Print Assumptions leaf_hash_max_load_is_model.
 
 Theorem leaf_hash_new_count_is_model :
   forall c, L.leaf_hash_new_count_dom c -> c < 2 ^ 64 - 1 -> L.leaf_hash_new_count c = model_new_count c.
-Proof. intros c Hc Hb. unfold L.leaf_hash_new_count_dom in Hc. unfold L.leaf_hash_new_count, model_new_count. lia. Qed.
+Proof. intros c Hc Hb. unfold L.leaf_hash_new_count_dom in Hc. unfold L.leaf_hash_new_count, model_new_count. lia.
+Qed.
 Print Assumptions leaf_hash_new_count_is_model.
 
 Theorem leaf_hash_grow_cond_is_model :
   forall new_count max_load, L.leaf_hash_grow_cond new_count max_load = model_grow_cond new_count max_load.
-Proof. intros. unfold L.leaf_hash_grow_cond, model_grow_cond. lia. Qed.
+Proof. intros. unfold L.leaf_hash_grow_cond, model_grow_cond. lia.
+Qed.
 Print Assumptions leaf_hash_grow_cond_is_model.
 
 Theorem leaf_hash_shrink_cond_is_model :
   forall c n, L.leaf_hash_shrink_cond c n = model_shrink_cond c n.
-Proof. intros. unfold L.leaf_hash_shrink_cond, model_shrink_cond. lia. Qed.
+Proof. intros. unfold L.leaf_hash_shrink_cond, model_shrink_cond. lia.
+Qed.
 Print Assumptions leaf_hash_shrink_cond_is_model.
 
 Theorem leaf_hash_shrink_allowed_is_model :
   forall n, L.leaf_hash_shrink_allowed n = model_shrink_allowed n.
-Proof. intros. unfold L.leaf_hash_shrink_allowed, model_shrink_allowed, min_n_entries. lia. Qed.
+Proof. intros. unfold L.leaf_hash_shrink_allowed, model_shrink_allowed, min_n_entries. lia.
+Qed.
 Print Assumptions leaf_hash_shrink_allowed_is_model.
 
 (* hash->n_entries <<= 1U wraps at 2^64, the model's Z.shiftl does not; n < 2^63 is exactly what excludes the wrap
@@ -80,7 +86,8 @@ Print Assumptions leaf_hash_grow_size_is_model.
 
 Theorem leaf_hash_shrink_size_is_model :
   forall n, L.leaf_hash_shrink_size_dom n -> L.leaf_hash_shrink_size n = model_shrink_size n.
-Proof. intros. reflexivity. Qed.
+Proof. intros. reflexivity.
+Qed.
 Print Assumptions leaf_hash_shrink_size_is_model.
 
 (* hash->mask = hash->n_entries - 1U in grow(), shrink() and zix_hash_new: no wrap for n_entries >= 1 *)
@@ -97,13 +104,15 @@ Print Assumptions leaf_hash_masks_are_model.
 (* --hash->count: erase is given an iterator to a record, so count >= 1 *)
 Theorem leaf_hash_erase_count_is_model :
   forall c, L.leaf_hash_erase_count_dom c -> 1 <= c -> L.leaf_hash_erase_count c = model_erase_count c.
-Proof. intros c Hc Hb. unfold L.leaf_hash_erase_count_dom in Hc. unfold L.leaf_hash_erase_count, model_erase_count. lia. Qed.
+Proof. intros c Hc Hb. unfold L.leaf_hash_erase_count_dom in Hc. unfold L.leaf_hash_erase_count, model_erase_count. lia.
+Qed.
 Print Assumptions leaf_hash_erase_count_is_model.
 
 Theorem hash_constants_are_model :
   C.tombstone = tombstone /\ C.min_n_entries = min_n_entries /\
   hash_new = mkH 0 (model_mask C.min_n_entries) C.min_n_entries (repeat Empty (Z.to_nat C.min_n_entries)).
-Proof. repeat split; reflexivity. Qed.
+Proof. repeat split; reflexivity.
+Qed.
 Print Assumptions hash_constants_are_model.
 
 (* the model's functions are built from exactly the expressions compared above (conversion only) *)
@@ -152,5 +161,6 @@ Theorem hash_model_unfolds :
        | OutOfFuel => OutOfFuel
        | Undef => Undef
        end, lg, o')).
-Proof. repeat split; reflexivity. Qed.
+Proof. repeat split; reflexivity.
+Qed.
 Print Assumptions hash_model_unfolds.
